@@ -375,10 +375,11 @@ Proof. destruct fuel; reflexivity. Qed.
 Lemma tsearch_ok tb p s0 : forall fuel cands dpt,
   In p cands -> pairwise_nonprefix (map p_code cands) ->
   Forall (fun q => compatible (p_code q) (firstn dpt (p_code p ++ s0)) = true) cands ->
-  (max_code_len cands - dpt <= 6 * fuel)%nat ->
-  (Nat.min 6 (max_code_len cands - length (p_code p)) <= length s0)%nat ->
+  (max_code_len cands - dpt <= stride * fuel)%nat ->
+  (Nat.min stride (max_code_len cands - length (p_code p)) <= length s0)%nat ->
   tsearch fuel tb cands dpt (skipn dpt (p_code p ++ s0)) = Ok p.
 Proof.
+  pose proof stride_pos as Hs1.
   induction fuel as [|f IH]; intros cands dpt Hin HP HC Hfuel Hen.
   - destruct cands as [|q [|q2 r]]; [destruct Hin| |].
     + destruct Hin as [->|[]]. reflexivity.
@@ -394,14 +395,16 @@ Proof.
       set (full := p_code p ++ s0) in *.
       assert (Ha : length (skipn dpt full) = (length (p_code p) + length s0 - dpt)%nat).
       { rewrite skipn_length. unfold full. rewrite app_length. reflexivity. }
-      set (t := Nat.min 6 (max_code_len cands - dpt)) in *.
+      set (t := Nat.min stride (max_code_len cands - dpt)) in *.
       assert (Ht : (1 <= t <= length (skipn dpt full))%nat) by lia.
-      assert (Ht6 : (t <= 6)%nat) by lia.
-      assert (Ha70 : length (firstn 70 (skipn dpt full)) = Nat.min 70 (length (skipn dpt full)))
+      assert (Ht6 : (t <= stride)%nat) by lia.
+      assert (Ha70 : length (firstn (64 + stride) (skipn dpt full))
+                     = Nat.min (64 + stride) (length (skipn dpt full)))
         by apply firstn_length.
-      set (a := length (firstn 70 (skipn dpt full))) in *.
+      set (a := length (firstn (64 + stride) (skipn dpt full))) in *.
       destruct (Nat.eqb a 0) eqn:Ea; [apply Nat.eqb_eq in Ea; lia|].
-      set (j := if Nat.ltb a 70 then N.to_nat ((tb - Nlen (skipn dpt full)) mod 64) else O).
+      set (j := if Nat.ltb a (64 + stride)
+                then N.to_nat ((tb - Nlen (skipn dpt full)) mod 64) else O).
       clearbody j.
       assert (Hbr : (if Nat.leb (t + j) 64 then Nat.min t a else t) = t).
       { destruct (Nat.leb (t + j) 64); [lia|reflexivity]. }
@@ -425,12 +428,12 @@ Proof.
 Qed.
 
 (* the key lemma: enough real bits after the code -> the real search finds p, for every tb.
-   "Enough" = min 6 (longest code - this code): at least 6 bits, or fewer when no stride
-   can reach further than the longest code.  Codes longer than 40 bits are rejected by
-   read_code_at's bounds check (and 40 <= 6 * 33, the reach of the fuel). *)
+   "Enough" = min stride (longest code - this code): at least [stride] bits, or fewer when no
+   stride can reach further than the longest code.  Codes longer than 40 bits are rejected by
+   read_code_at's bounds check (and 40 <= stride * 33, the reach of the fuel: stride_reach). *)
 Theorem read_code_at_enough : forall tb ps p s,
   table_ok ps = true -> (max_code_len ps <= 40)%nat -> In p ps ->
-  (Nat.min 6 (max_code_len ps - length (p_code p)) <= length s)%nat ->
+  (Nat.min stride (max_code_len ps - length (p_code p)) <= length s)%nat ->
   read_code_at tb ps (p_code p ++ s) = Ok (p, s).
 Proof.
   intros tb ps p s Hok HM Hin Hen. unfold read_code_at.
@@ -442,12 +445,12 @@ Proof.
     symmetry. apply Nat.leb_le. rewrite firstn_length, app_length.
     pose proof (max_code_len_In ps p Hin). lia.
   - apply Forall_forall. intros q _. apply compatible_nil_r.
-  - lia.
+  - pose proof stride_reach. lia.
   - exact Hen.
 Qed.
 
 Corollary read_code_at_6 : forall tb ps p s,
-  table_ok ps = true -> (max_code_len ps <= 40)%nat -> In p ps -> (6 <= length s)%nat ->
+  table_ok ps = true -> (max_code_len ps <= 40)%nat -> In p ps -> (stride <= length s)%nat ->
   read_code_at tb ps (p_code p ++ s) = Ok (p, s).
 Proof. intros. apply read_code_at_enough; try assumption. lia. Qed.
 
@@ -457,8 +460,8 @@ Definition wf_prefix (w : N) (p : prefix) : Prop :=
   (forall j, p_jump p = Some j -> j <= 24).
 
 (* code lengths <= 40: read_code_at's bounds check looks at no more than 40 bits (and the
-   stride search, fuel 33 with strides of 6, reaches them).  Every parsed table satisfies
-   it (5-bit code length field: lengths <= 31). *)
+   stride search, fuel 33 with strides of [stride], reaches them: stride_reach).  Every
+   parsed table satisfies it (5-bit code length field: lengths <= 31). *)
 Definition wf_table (w : N) (ps : list prefix) : Prop :=
   table_ok ps = true /\ Forall (wf_prefix w) ps /\ (max_code_len ps <= 40)%nat.
 
@@ -470,16 +473,17 @@ Proof.
   pose proof (max_code_len_bound ps 31 H3). lia.
 Qed.
 
-(* enough real bits follow the body for the last table lookup of the body: 6 bits, or
+(* enough real bits follow the body for the last table lookup of the body: [stride] bits, or
    fewer when the longest code is shorter than a stride *)
 Definition enough_rest (ps : list prefix) (rest : bits) : Prop :=
-  (Nat.min 6 (max_code_len ps) <= length rest)%nat.
+  (Nat.min stride (max_code_len ps) <= length rest)%nat.
 
-Lemma enough_rest_6 ps rest : 6 <= Nlen rest -> enough_rest ps rest.
+Lemma enough_rest_6 ps rest : N.of_nat stride <= Nlen rest -> enough_rest ps rest.
 Proof. unfold enough_rest, Nlen. lia. Qed.
 
+(* the footer byte: stride_le_footer *)
 Lemma enough_rest_8 ps rest : 8 <= Nlen rest -> enough_rest ps rest.
-Proof. unfold enough_rest, Nlen. lia. Qed.
+Proof. pose proof stride_le_footer. unfold enough_rest, Nlen. lia. Qed.
 
 Lemma read_code_at_rest w tb ps rest p s :
   wf_table w ps -> enough_rest ps rest -> In p ps -> (length rest <= length s)%nat ->
